@@ -55,6 +55,11 @@ func (e *Env) trBool(ex Expr) string {
 }
 
 func (x *Exec) loadPure(st *State, a *Addr) Val {
+	if n, ok := x.packedObj(a); ok {
+		hs := "(Array Int (Array " + x.sorts.Idx() + " " + x.byteSort() + "))"
+		arr := x.heapArr(st, a.Prefix, hs)
+		return Val{T: a.T, K: KScalar, S: x.packBytes(sel(arr, a.Idx[0]), n)}
+	}
 	ls := x.sorts.leaves(a.T)
 	terms := make([]string, len(ls))
 	for i, l := range ls {
@@ -65,13 +70,14 @@ func (x *Exec) loadPure(st *State, a *Addr) Val {
 	v := x.unflatten(a.T, terms)
 	if x.collectTyping {
 		x.pendingTyping = append(x.pendingTyping, v)
+		x.pendingBound = append(x.pendingBound, x.refBound(st, a.Prefix+ls0suffix(ls)))
 	}
 	return v
 }
 
 // assumeCollectedTyping adds well-typedness facts for ground values read while translating a clause.
 func (x *Exec) assumeCollectedTyping(st *State) {
-	for _, v := range x.pendingTyping {
+	for i, v := range x.pendingTyping {
 		ground := true
 		for _, t := range x.flatten(v) {
 			if strings.Contains(t, "!q") {
@@ -79,10 +85,11 @@ func (x *Exec) assumeCollectedTyping(st *State) {
 			}
 		}
 		if ground {
-			x.assumeTyping(st, v)
+			x.assumeTypingBound(st, v, x.pendingBound[i])
 		}
 	}
 	x.pendingTyping = nil
+	x.pendingBound = nil
 }
 
 func (e *Env) tr(ex Expr) Val {
@@ -137,11 +144,27 @@ func (e *Env) tr(ex Expr) Val {
 		switch u := base.T.Underlying().(type) {
 		case *types.Map:
 			k := e.coerce(e.tr(n.I), u.Key())
-			return x.mapGet(e.st, base, k.S)
+			mv := x.mapGet(e.st, base, k.S)
+			if x.collectTyping && mv.K != KStruct {
+				prefix, _, vls := x.mapInfo(base.T)
+				if len(vls) > 0 {
+					x.pendingTyping = append(x.pendingTyping, mv)
+					x.pendingBound = append(x.pendingBound, x.refBound(e.st, prefix+".val"+vls[0].suffix))
+				}
+			}
+			return mv
 		case *types.Slice:
 			i := e.coerceIdx(e.tr(n.I))
 			return x.loadPure(e.st, x.sliceElemAddr(base, i))
 		case *types.Array:
+			if pn, ok := packedArray(base.T); ok {
+				iv := e.tr(n.I)
+				lit, isL := isLit(iv.S)
+				if !isL {
+					e.fail("symbolic index into a packed byte array")
+				}
+				return e.scalarOf(u.Elem(), x.byteAt(base.S, int(lit.Int64()), pn))
+			}
 			i := e.coerceIdx(e.tr(n.I))
 			return e.scalarOf(u.Elem(), sel(base.S, i))
 		case *types.Pointer:
@@ -743,7 +766,19 @@ func (e *Env) call(n ECall) Val {
 			if !ok {
 				e.fail("ufunc %s must return a scalar", n.Fn)
 			}
+			_, seen := x.decls.set["uf."+sf.Name]
 			f := x.decls.Fun("uf."+sf.Name, argSorts, rs)
+			if w, signed, ok := isIntType(rt); ok && x.mode == ModeInt && !seen {
+				// range axiom for the declared result type
+				var bs, as []string
+				for i, s := range argSorts {
+					bs = append(bs, fmt.Sprintf("(ua%d %s)", i, s))
+					as = append(as, fmt.Sprintf("ua%d", i))
+				}
+				lo, hi := intRange(w, signed)
+				call := app(f, as...)
+				x.preamble = append(x.preamble, fmt.Sprintf("(assert (forall (%s) (! (and (<= %s %s) (<= %s %s)) :pattern (%s))))", strings.Join(bs, " "), lo, call, call, hi, call))
+			}
 			return e.scalarOf(rt, app(f, argTerms...))
 		}
 		vars := map[string]Val{}
